@@ -238,6 +238,12 @@ class Topic(Entity):
             )
             delivery_events.append(delivery_event)
 
+        # The events are handed to the engine now, after the per-subscriber latencies: stamp them
+        # with the emission instant (a publish-time stamp lies in the past and is discarded).
+        emitted_at = self._clock.now if self._clock else now
+        for delivery_event in delivery_events:
+            delivery_event.time = emitted_at
+
         return delivery_events
 
     def publish_sync(self, message: Event) -> list[Event]:
